@@ -81,6 +81,18 @@ func RunMachineDebug(m *xpath.Machine, entry xpath.Entry, debug bool) (o Obs) {
 	return observe(xpath.NewCtxFromCurrent(gocontext.Background(), m, entry).SetDebug(debug).Run())
 }
 
+// RunMachineValidating: the same run with the context's validation mode on (EnableValidation: the
+// arguments and the result of every function call are checked against the function's signature while
+// the machine runs).
+func RunMachineValidating(m *xpath.Machine, entry xpath.Entry) (o Obs) {
+	defer func() {
+		if r := recover(); r != nil {
+			o.Panic = fmt.Sprint(r)
+		}
+	}()
+	return observe(xpath.NewCtxFromCurrent(gocontext.Background(), m, entry).EnableValidation().Run())
+}
+
 // RunMachineFromMach runs a machine through the other context constructor, NewCtxFromMach (no data
 // tree: meaningful for expressions without location paths only).
 func RunMachineFromMach(m *xpath.Machine) (o Obs) {
